@@ -312,26 +312,29 @@ def padTo {α} (n : Nat) (x : α) (l : List α) : List α := l ++ List.replicate
 
 def nullCell (withoutNull : Bool) : DCell := if withoutNull then some [] else none
 
+/-- header and records of the view, from the records the reader returned and its final
+    `FieldsPerRecord` -/
+def assemble (o : Opts) (recs : List (List RawField)) (fpr : Nat) : DTable :=
+  let hb : Option (List (List Char)) × List (List RawField) :=
+    if o.withoutHeader then (none, recs)
+    else match recs with
+      | [] => (none, [])
+      | h :: b => (some (h.map (·.contents)), b)
+  let header := match hb.1 with
+    | none => autoNames fpr
+    | some h => h
+  let rows := hb.2.map (·.map (cellOf o.withoutNull))
+  if o.allowUneven then
+    ⟨autofill (padTo fpr [] header), rows.map (padTo fpr (nullCell o.withoutNull))⟩
+  else
+    ⟨header, rows⟩
+
 /-- the loader: reader options are `o.delim`, `o.withoutHeader` (= NoHeader), `o.withoutNull`,
     `o.allowUneven` -/
 def decodeCsv (o : Opts) (inp : List Char) : Except Err DTable :=
   match readAll ⟨o.delim, o.allowUneven⟩ inp with
   | .error e => .error e
-  | .ok σ =>
-    let recs := σ.recs.reverse
-    let hb : Option (List (List Char)) × List (List RawField) :=
-      if o.withoutHeader then (none, recs)
-      else match recs with
-        | [] => (none, [])
-        | h :: b => (some (h.map (·.contents)), b)
-    let header := match hb.1 with
-      | none => autoNames σ.fpr
-      | some h => h
-    let rows := hb.2.map (·.map (cellOf o.withoutNull))
-    if o.allowUneven then
-      .ok ⟨autofill (padTo σ.fpr [] header), rows.map (padTo σ.fpr (nullCell o.withoutNull))⟩
-    else
-      .ok ⟨header, rows⟩
+  | .ok σ => .ok (assemble o σ.recs.reverse σ.fpr)
 
 /-- `Reader.DetectedLineBreak` after reading everything (for the "keeps its line break" clause) -/
 def detectLB (o : Opts) (inp : List Char) : Option LB :=
